@@ -45,7 +45,7 @@ PROPS = {
 }
 PROBES = {'C07': ['corner_2_axes', 'corner_3_axes', 'both_low_and_high_layer', 'on_face', 'ulp_off_face', 'wrapped_particle',
                   'wrap_nearly_full_period', 'update_without_motion', 'empty_array', 'second_array_mirror', 'props_subset',
-                  'mixed_periodic_mirror', 'band_particle', 'variable_h', 'interacting_image_checked',
+                  'mixed_periodic_mirror', 'band_particle', 'band_particle_with_edge_images', 'remote_tagged_particles', 'variable_h', 'interacting_image_checked',
                   'particles_added_between_updates', 'particles_removed_between_updates', 'property_added_between_updates']}
 
 NEWPROPS = {'ni': ('int', 1), 'nl': ('long', 1), 'nd': ('double', 1), 'nu': ('unsigned int', 1), 'ns': ('double', 3)}
@@ -155,6 +155,11 @@ def gen(t, prop, tier):
         if t.bool(0.2):
             rd['addprop'] = [t.int(0, narr - 1), t.choice(['ni', 'nl', 'nd', 'nu', 'ns'])]
         rounds.append(rd)
+    if t.bool(0.2):
+        # some particles are Remote-tagged copies (what a parallel run holds): the domain manager treats them like real ones
+        for a in arrays:
+            for r in a['pts']:
+                r.append(int(t.bool(0.3)))
     return dict(dim=dim, box=box, periodic=[int(k == 'p') for k in kinds], mirror=[int(k == 'm') for k in kinds],
                 n_layers=n_layers, radius_scale=rs, props=props, arrays=arrays, rounds=rounds, hmax=hmax)
 
@@ -239,13 +244,21 @@ def execute(sc, prop):
     allh = []
     for i, spec in enumerate(specs):
         rows = []
+        rtags = []
         for r in spec.get('pts', []):
             try:
                 rows.append([float(v) for v in r[:7]])
+                rtags.append(int(r[7]) if len(r) > 7 else 0)
             except Exception:
                 raise InvalidScenario('row')
-            if len(rows[-1]) != 7 or not rows[-1][3] > 0 or not all(math.isfinite(v) for v in rows[-1]):
+            if len(rows[-1]) != 7 or not rows[-1][3] > 0 or not all(math.isfinite(v) for v in rows[-1]) or rtags[-1] not in (0, 1):
                 raise InvalidScenario('row')
+        # Local particles first, Remote-tagged ones (copies owned by another process) after them
+        order = [k for k in range(len(rows)) if rtags[k] == 0] + [k for k in range(len(rows)) if rtags[k] == 1]
+        rows = [rows[k] for k in order]
+        rtags = [rtags[k] for k in order]
+        if any(rtags):
+            probe('remote_tagged_particles')
         n = len(rows)
         ids = list(range(next_id, next_id + n))
         next_id += n
@@ -254,7 +267,7 @@ def execute(sc, prop):
             arr[:, a] = 0.0
         pa = get_particle_array(name='a%d' % i, x=arr[:, 0].copy(), y=arr[:, 1].copy(), z=arr[:, 2].copy(), h=arr[:, 3].copy(),
                                 u=arr[:, 4].copy(), v=arr[:, 5].copy(), w=arr[:, 6].copy(),
-                                m=np.ones(n) * 1.5, rho=np.ones(n) * 2.5)
+                                m=np.ones(n) * 1.5, rho=np.ones(n) * 2.5, tag=np.array(rtags, dtype=np.int32))
         c = _cols(ids)
         for (p, ctype, stride) in EXTRA:
             pa.add_property(p, type=ctype, stride=stride, data=c[p] if n else None, default=7 if p == 'q' else 0)
@@ -291,8 +304,9 @@ def execute(sc, prop):
                        props=(None if props is None else (list(props) if isinstance(props, list) else {k: list(v) for k, v in props.items()})))
     # state of the real particles as the model knows it: {ident: record}
     def reals_of(pa):
+        # the particles the domain manager works on: everything that is not one of its own ghosts (Local and Remote)
         recs = _records(pa)
-        return [r for r in recs if r['tag'][0] == 0]
+        return [r for r in recs if r['tag'][0] != 2]
 
     before = [reals_of(pa) for pa in particles]
     counts = []
@@ -319,14 +333,18 @@ def execute(sc, prop):
             n = len(recs)
             tags = [r['tag'][0] for r in recs]
             nreal = len(before[ai])
+            nloc = sum(1 for r in before[ai] if r['tag'][0] == 0)
             sg = dict(array=ai, second_array=(ai > 0))
-            if pa.num_real_particles != nreal or any(t != 0 for t in tags[:nreal]) or any(t == 0 for t in tags[nreal:]):
+            if pa.num_real_particles != nloc or any(t != 0 for t in tags[:nloc]) or any(t == 0 for t in tags[nloc:]):
                 violate('real-particles-not-first', '%s: array %d has tags %r, num_real_particles=%d, expected %d real particles first'
-                        % (what, ai, tags[:40], pa.num_real_particles, nreal), **sg)
+                        % (what, ai, tags[:40], pa.num_real_particles, nloc), **sg)
                 return
-            if any(t != 2 for t in tags[nreal:]):
-                violate('ghost-not-tagged', '%s: array %d non-real particles carry tags %r' % (what, ai, sorted(set(tags[nreal:]))), **sg)
+            if sum(1 for t in tags if t == 1) != nreal - nloc or any(t not in (1, 2) for t in tags[nloc:]):
+                violate('ghost-not-tagged', '%s: array %d holds %d Remote-tagged particles (expected the %d it had before the update); tags after '
+                        'the real particles are %r' % (what, ai, sum(1 for t in tags if t == 1), nreal - nloc, sorted(set(tags[nloc:]))), **sg)
                 return
+            base_recs = [r for r in recs if r['tag'][0] != 2]
+            ghost_recs = [r for r in recs if r['tag'][0] == 2]
             # real particles: unchanged except wrapping
             exp_real = {}
             for r in before[ai]:
@@ -348,7 +366,7 @@ def execute(sc, prop):
                         pos[a] = v
                 e['x'], e['y'], e['z'] = (pos[0],), (pos[1],), (pos[2],)
                 exp_real[r['ident'][0]] = e
-            got_real = {r['ident'][0]: r for r in recs[:nreal]}
+            got_real = {r['ident'][0]: r for r in base_recs}
             if sorted(got_real) != sorted(exp_real) or len(got_real) != nreal:
                 violate('real-particles-changed', '%s: array %d real identities %r, expected %r' % (
                     what, ai, sorted(got_real)[:20], sorted(exp_real)[:20]), **sg)
@@ -410,7 +428,7 @@ def execute(sc, prop):
                 total_expected += len(ms)
             # actual ghosts
             seen = {}
-            for g in recs[nreal:]:
+            for g in ghost_recs:
                 idn = g['ident'][0]
                 if idn not in exp_real:
                     violate('ghost-of-unknown-particle', '%s: array %d holds a ghost with identity %r' % (what, ai, idn), **sg)
@@ -496,6 +514,22 @@ def execute(sc, prop):
                 # prefer an image the model requires
                 good.sort(key=lambda c: (c not in must[idn]))
                 seen[(idn, good[0])] = g
+            # the images of one particle form a product over the axes (one in/out decision per axis and side, shared by face,
+            # edge and corner images), also for a particle that sits exactly on the inner boundary of a layer
+            by_id = {}
+            for (idn, cnd) in seen:
+                by_id.setdefault(idn, set()).add(cnd)
+            for idn, imgs in by_id.items():
+                full = set(imgs) | {('0', '0', '0')}
+                axes_sets = [set(c[a] for c in full) for a in range(3)]
+                if len(full) != len(axes_sets[0]) * len(axes_sets[1]) * len(axes_sets[2]):
+                    lacking = sorted(set(itertools.product(*axes_sets)) - full)
+                    violate('images-not-a-product', '%s: array %d particle %d at (%r, %r, %r) has images %r but not %r (layer thickness %r)'
+                            % (what, ai, idn, exp_real[idn]['x'][0], exp_real[idn]['y'][0], exp_real[idn]['z'][0], sorted(imgs), lacking[:4], layer),
+                            **sg)
+                    return
+                if len(imgs) > 1 and any(c not in must[idn] for c in imgs):
+                    probe('band_particle_with_edge_images')
             for idn, ms in must.items():
                 for cnd in ms:
                     if (idn, cnd) not in seen:
